@@ -27,6 +27,7 @@ import asyncio
 import itertools
 
 import c07_app
+import c07_bw
 import c07_iter
 import c07_pipe
 import c07_stack
@@ -869,6 +870,51 @@ async def run_level_c(env, rep, aiocoap):
             rep.oracle_fail(case, v, key=key)
 
 
+# ------------------------------------------------------------------------------ level (d)
+
+async def run_level_d(env, rep, aiocoap):
+    """block-wise notifications through the default API (harness/c07_bw.py): the application's view is judged by
+    the oracle; what `BlockwiseRequest._run_observation` did with every item of the lower iteration is compared
+    with the Lean model of the loop (`C07 U`)"""
+    scs = [c["bw"] for _, c in load_corpus("C07") if "bw" in c]
+    scs += c07_bw.boundary_scenarios()
+    scs += [c07_bw.random_scenario(env.rng) for _ in range(env.scale(700, 30000))]
+    lines, impl, cases = [], [], []
+    for sc in scs:
+        res = await c07_bw.run_scenario(aiocoap, sc)
+        case = {"level": "d", "bw": sc}
+        items = [x for x in res["seen"] if x[0] == "item"]
+        rep.case(case, nontrivial=bool(items) and any(t[0].endswith((":skip", ":net")) or t[0] in ("stop", "raise")
+                                                       for t in res["trace"]), sample_every=2000)
+        rep.count("d:scenarios")
+        rep.count("d:consumer=" + sc["consumer"] + (":busy" if sc.get("work") else ""))
+        for t, _ in res["trace"]:
+            rep.count("d:loop-event=" + (t.split(":", 1)[1] if ":" in t else t))
+        for e in res["served"]:
+            if e[0] == "B":
+                rep.count("d:block-reply=" + e[3])
+            elif e[0] == "F":
+                rep.count("d:final=" + ("non-2.xx-with-observe" if e[2] is not None else "no-observe"))
+        st = sc["steps"]
+        if any(a[0] == "N" and b[0] == "N" for a, b in zip(st, st[1:])):
+            rep.count("d:notification-overtakes-fetch")
+        if any(x[0] == "S" for x in st):
+            rep.count("d:state-change-during-fetch")
+        if st and st[0] == ["RC"]:
+            rep.count("d:response-cancelled-before-first")
+        if sc.get("cancel_at") is not None and ("item", 69, sc["cancel_at"]) in res["seen"]:
+            rep.count("d:cancel-in-callback:hit")
+        v, key = c07_bw.oracle(sc, res)
+        if v:
+            rep.oracle_fail(case, v, key=key)
+        tl = c07_bw.trace_lines(res)
+        if tl is not None:
+            lines.append(tl[0])
+            impl.append(tl[1])
+            cases.append(case)
+    compare(env, rep, cases, lines, impl, what="BlockwiseRequest._run_observation vs the loop model")
+
+
 def run(env, rep):
     aiocoap = env.import_repo()
     bench = c07_pipe.Bench(aiocoap)
@@ -880,6 +926,7 @@ def run(env, rep):
             loop.run_until_complete(run_level_a(env, rep, bench, R, fams))
             loop.run_until_complete(run_level_i(env, rep, aiocoap))
             loop.run_until_complete(run_level_c(env, rep, aiocoap))
+            loop.run_until_complete(run_level_d(env, rep, aiocoap))
         finally:
             loop.close()
     finally:
@@ -894,6 +941,19 @@ def run(env, rep):
             "i:aiter-after=items", "i:malformed=feed-after-error",
             "c:first-event-transport-error:blockwise", "c:first-event-transport-error:plain",
             "c:back-to-back", "c:end=stop", "c:end=raise:NetworkError", "c:end=eb:ObservationCancelled",
+            "a:family=codes", "a:family=cancel-in-callback", "a:family=response-cancel",
+            "a:event=M:non-2.xx-with-observe", "a:event=M:non-2.xx-with-observe:first",
+            "a:event=M:non-2.xx-with-observe:last", "a:event=M:cancels-in-callback",
+            "a:event=RC:before-first", "a:event=RC:before-first:iterating",
+            "c:non-2.xx-with-observe", "c:cancel-in-callback:hit",
+            "c:response-cancelled:before-first:blockwise:iter", "c:response-cancelled:before-first:plain:iter",
+            "c:response-cancelled:before-first:blockwise:callbacks", "c:response-cancelled:later:plain:iter",
+            "d:loop-event=ok", "d:loop-event=skip", "d:loop-event=net", "d:loop-event=stop", "d:loop-event=raise",
+            "d:block-reply=etag", "d:block-reply=short", "d:block-reply=wrongnum", "d:block-reply=err",
+            "d:block-reply=errb2", "d:block-reply=noblock2", "d:block-reply=neterr",
+            "d:notification-overtakes-fetch", "d:state-change-during-fetch", "d:final=non-2.xx-with-observe",
+            "d:response-cancelled-before-first", "d:cancel-in-callback:hit", "d:consumer=iter:busy",
+            "b:response-cancelled-before-first:consumer", "b:non-2.xx-with-observe",
             "b:cancel-before-first", "b:consumer=busy", "b:end=NotObservable", "b:end=ObservationCancelled", "b:end=T2", "b:end=T3",
             "b:rst-sent", "b:ack-sent", "b:event=R:CON", "b:event=R:NON", "b:callbacks"]
     missing = [k for k in need if not rep.hist.get(k)]
@@ -932,6 +992,14 @@ def replay(env, case):
         finally:
             loop.close()
         v, _ = c07_app.oracle_app(case["app"], res)
+        return v
+    if case.get("level") == "d":
+        loop = asyncio.new_event_loop()
+        try:
+            res = loop.run_until_complete(c07_bw.run_scenario(aiocoap, case["bw"]))
+        finally:
+            loop.close()
+        v, _ = c07_bw.oracle(case["bw"], res)
         return v
     if case.get("level") == "b":
         res = c07_stack.run_stack(case["script"])
